@@ -427,8 +427,20 @@ type nameTrack struct {
 
 func reloadCase(c *h.Case) {
 	begin(c)
+	if os.Getenv("C19_TRACE") != "" {
+		t0 := time.Now()
+		defer func() {
+			if d := time.Since(t0); d > 8*time.Second {
+				fmt.Fprintf(os.Stderr, "slow reload case %d: %v %v\n", c.Idx, d, c.Data["kind"])
+			}
+		}()
+	}
 	if (c.Idx-baseReload)%20 == 0 {
 		staleReplyCase(c)
+		return
+	}
+	if (c.Idx-baseReload)%20 == 10 {
+		healthDefaultsReloadCase(c)
 		return
 	}
 	rng := c.Rng
@@ -1298,18 +1310,152 @@ func portAccepts(p int) bool {
 	return true
 }
 
-// listenInode returns the inode of the socket listening on the loopback tcp port ("" = none found).
-func listenInode(port int) string {
-	b, err := os.ReadFile("/proc/net/tcp")
-	if err != nil {
-		return ""
+// healthDefaultsReloadCase: health-checked entries that leave intervalSeconds / timeoutSeconds / maxFailed
+// partly or wholly unset (the code applies defaults 10 s / 3 s / 1). The identical configuration, parsed
+// anew from its text (fresh objects, as a file reload builds them), is loaded several times: nothing may be
+// closed or registered again at the server, and the tunnels opened before keep answering.
+func healthDefaultsReloadCase(c *h.Case) {
+	begin(c)
+	rng := c.Rng
+	slot, blk, ok := reloadSlots.get()
+	defer reloadSlots.put(slot)
+	if !ok {
+		run.Inconclusive("reload: port block still busy")
+		return
 	}
-	want := fmt.Sprintf("0100007F:%04X", port)
-	for _, ln := range strings.Split(string(b), "\n") {
-		f := strings.Fields(ln)
-		if len(f) >= 10 && f[1] == want && f[3] == "0A" {
-			return f[9]
+	pfx := fmt.Sprintf("c%d.", c.Idx)
+	defer forgetRegs(pfx)
+	defer forgetPhases(pfx)
+	b, err := h.StartTCPBackend(0, h.IdentEcho("HD")) // backend and health target at once
+	if err != nil {
+		run.Inconclusive("reload: backend did not start")
+		return
+	}
+	defer b.Close()
+	// which of the three numbers are written down (i = intervalSeconds, t = timeoutSeconds, m = maxFailed)
+	combos := []string{"", "i", "it", "im", "tm", "itm", "t", "m"}
+	rng.Shuffle(len(combos), func(i, j int) { combos[i], combos[j] = combos[j], combos[i] })
+	combos = combos[:5]
+	hasUnset := false
+	for _, cb := range combos {
+		if len(cb) < 3 {
+			hasUnset = true
 		}
 	}
-	return ""
+	if !hasUnset {
+		combos[0] = ""
+	}
+	hcType := []string{"tcp", "tcp", "http"}[rng.Intn(3)]
+	var hb *hback
+	if hcType == "http" {
+		hb, err = newHback(fmt.Sprintf("hd%d", c.Idx), 3*time.Second)
+		if err != nil {
+			run.Inconclusive("reload: health backend did not start")
+			return
+		}
+		defer hb.Close()
+	}
+	var names []string
+	var cfg strings.Builder
+	fmt.Fprintf(&cfg, "serverAddr = \"127.0.0.1\"\nserverPort = %d\nauth.token = %q\nloginFailExit = false\ntransport.tls.enable = false\ntransport.poolCount = 1\n", srv.Cfg.BindPort, token)
+	for i, cb := range combos {
+		n := fmt.Sprintf("%shd%d", pfx, i)
+		names = append(names, n)
+		lport := b.Port
+		fmt.Fprintf(&cfg, "\n[[proxies]]\nname = %q\ntype = \"tcp\"\nlocalIP = \"127.0.0.1\"\nremotePort = %d\nhealthCheck.type = %q\n", n, blk[i], hcType)
+		if hcType == "http" {
+			lport = hb.port
+			fmt.Fprintf(&cfg, "healthCheck.path = %q\n", hb.path)
+		}
+		fmt.Fprintf(&cfg, "localPort = %d\n", lport)
+		if strings.Contains(cb, "i") {
+			cfg.WriteString("healthCheck.intervalSeconds = 1\n")
+		}
+		if strings.Contains(cb, "t") {
+			cfg.WriteString("healthCheck.timeoutSeconds = 2\n")
+		}
+		if strings.Contains(cb, "m") {
+			cfg.WriteString("healthCheck.maxFailed = 2\n")
+		}
+	}
+	nReloads := 2 + rng.Intn(3)
+	c.Data["kind"], c.Data["health_type"], c.Data["fields_written"], c.Data["reloads"] = "unchanged reload of health-checked entries with defaulted settings", hcType, combos, nReloads
+	cli, err := h.StartClientText(prop, cfg.String())
+	if err != nil {
+		run.Inconclusive("reload: client did not start: " + err.Error())
+		return
+	}
+	defer cli.Close()
+	if err := cli.WaitRunning(convergeGrace, names...); err != nil {
+		viol(c, "not-registered-after-successful-probe", "health-checked entries with a healthy backend are not running: %v", err)
+		return
+	}
+	conns := map[string]net.Conn{}
+	defer func() {
+		for _, cn := range conns {
+			cn.Close()
+		}
+	}()
+	if hcType == "tcp" { // the backend speaks the ident/echo protocol: keep one tunnel connection per entry
+		for i, n := range names {
+			cn, err := net.DialTimeout("tcp", fmt.Sprintf("127.0.0.1:%d", blk[i]), 5*time.Second)
+			var id string
+			if err == nil {
+				id, err = h.AskIdentOn(cn, 10*time.Second)
+			}
+			if err != nil || id != "HD|" {
+				viol(c, "registered-proxy-carries-no-traffic-to-configured-backend", "%s on port %d answered %q / %v", n, blk[i], id, err)
+				return
+			}
+			conns[n] = cn
+		}
+	}
+	for _, n := range names {
+		if at, cl := regCounts(n); at != 1 || cl != 0 {
+			run.Inconclusive("reload: registration repeated before the reloads (loaded machine)")
+			return
+		}
+	}
+	for r := 1; r <= nReloads; r++ {
+		_, pcs, vcs, err := h.LoadClientConfig(prop, cfg.String()) // fresh objects from the same text
+		if err != nil {
+			run.Inconclusive("reload: configuration does not load")
+			return
+		}
+		if err := cli.Svc.UpdateAllConfigurer(pcs, vcs); err != nil {
+			viol(c, "reload-refused", "UpdateAllConfigurer returned %v", err)
+			return
+		}
+		c.Ev("reload", "round", r, "identical", true)
+		run.Count("reloads", 1)
+		time.Sleep(time.Duration(200+rng.Intn(500)) * time.Millisecond)
+		for i, n := range names {
+			at, cl := regCounts(n)
+			var trans []string
+			for _, p := range phaseHistory(n) {
+				trans = append(trans, p.From+"->"+p.To)
+			}
+			written := combos[i]
+			if written == "" {
+				written = "none"
+			}
+			if at != 1 || cl != 0 {
+				viol(c, "unchanged-health-checked-entry-restarted-on-reload", "%s (health check %s; of intervalSeconds/timeoutSeconds/maxFailed written down: %s): after reload number %d of the identical configuration text the server has seen %d NewProxy and %d CloseProxy for it (want 1 and 0); transitions %v", n, hcType, written, r, at, cl, trans)
+				return
+			}
+			if ph := cli.ProxyPhase(n); ph != "running" {
+				viol(c, "unchanged-health-checked-entry-restarted-on-reload", "%s (fields written: %s): status %q after reload number %d of the identical configuration; transitions %v", n, written, ph, r, trans)
+				return
+			}
+			if cn := conns[n]; cn != nil {
+				if err := echoOnce(cn); err != nil {
+					viol(c, "unchanged-health-checked-entry-restarted-on-reload", "%s (fields written: %s): the tunnel connection opened before the reload is dead after reload number %d of the identical configuration: %v", n, written, r, err)
+					return
+				}
+				run.Count("tunnel_connections_survived_reload", 1)
+			}
+		}
+	}
+	run.Count("health_default_reload_cases", 1)
+	run.Distinct(fmt.Sprintf("reload|health-defaults|%s|%v|%d", hcType, combos, nReloads))
 }
